@@ -107,6 +107,35 @@ def opIntr (ws : List String) : String :=
   | "_mm_add_ps" | "_mm256_add_ps" | "_mm512_add_ps" => "ok " ++ hexOrDash (canonBytesF (bytesF (add_ps F32.ops af bf)))
   | _ => "bad-op"
 
+/-! ## lane-wise 32-bit intrinsics (table Lane32.lean, hardware instance) -/
+def opLane32 (ws : List String) : String :=
+  let f := (arg? ws "f").getD ""
+  let imm := (argNat? ws "imm").getD 0
+  let as := (chunks 4 ((argHex? ws "a").getD [])).map fun c => UInt32.ofNat (leNat c)
+  let bs := (chunks 4 ((argHex? ws "b").getD [])).map fun c => UInt32.ofNat (leNat c)
+  let L := Lane32Ops.hw
+  let un (g : UInt32 → UInt32) : String := "ok " ++ hexOrDash (as.flatMap fun a => natLE 4 (g a).toNat)
+  let bin (g : UInt32 → UInt32 → UInt32) : String :=
+    "ok " ++ hexOrDash ((List.zip as (bs ++ List.replicate 4 0)).flatMap fun ab => natLE 4 (g ab.1 ab.2).toNat)
+  match f with
+  | "_mm_cvttps_epi32" => un L.cvttps_epi32
+  | "_mm_cvtepi32_ps" => un L.cvtepi32_ps
+  | "_mm_cmplt_ps" => bin L.cmplt_ps
+  | "_mm_cmpgt_ps" => bin L.cmpgt_ps
+  | "_mm_cmple_ps" => bin L.cmple_ps
+  | "_mm_cmpeq_epi32" => bin L.cmpeq_epi32
+  | "_mm_sub_epi32" => bin L.sub_epi32
+  | "_mm_add_epi32" => bin L.add_epi32
+  | "_mm_and_ps" => bin L.and32
+  | "_mm_or_ps" => bin L.or32
+  | "_mm_andnot_ps" => bin L.andnot32
+  | "_mm_sub_ps" => bin fun a b => canonNaN (L.sub_ps a b)
+  | "_mm_mul_ps" => bin fun a b => canonNaN (L.mul_ps a b)
+  | "_mm_add_ps" => bin fun a b => canonNaN (L.add_ps a b)
+  | "_mm_srli_epi32" => un fun a => L.srli_epi32 a imm
+  | "_mm_slli_epi32" => un fun a => L.slli_epi32 a imm
+  | _ => "bad-op"
+
 /-! ## logf / expf -/
 def opLogExp (isLog : Bool) (ws : List String) : String :=
   let xs := (chunks 4 ((argHex? ws "x").getD [])).map fun c => UInt32.ofNat (leNat c)
@@ -127,6 +156,7 @@ def opVecD (op : String) (x y : List Float) (s : Float) (m : Nat) : String :=
   | "Dot" => sc (some (dot x y))
   | "Max" => sc (vmax x)
   | "MatMax" => if m = 0 then "bad-op" else sc (vmax x)
+  | "MatScale" => if m = 0 then "bad-op" else vc (some (scale x s))
   | "Min" => sc (vmin x)
   | "ArgMax" => s!"ok {argmax x}"
   | "ArgMin" => s!"ok {argmin x}"
@@ -160,6 +190,7 @@ def opVecF (op : String) (x y : List Float32) (s : Float32) (m : Nat) : String :
   | "Dot" => sc (some (dot x y))
   | "Max" => sc (vmax x)
   | "MatMax" => if m = 0 then "bad-op" else sc (vmax x)
+  | "MatScale" => if m = 0 then "bad-op" else vc (some (scale x s))
   | "Min" => sc (vmin x)
   | "ArgMax" => s!"ok {argmax x}"
   | "ArgMin" => s!"ok {argmin x}"
@@ -227,6 +258,7 @@ def step (s : Unit) (line : String) : Unit × String :=
   | "cpu" :: _ => (s, "ok sse=1 avx=1 avx512=1")
   | "simd" :: _ => (s, opSimd ws)
   | "intr" :: _ => (s, opIntr ws)
+  | "lane32" :: _ => (s, opLane32 ws)
   | "logf" :: _ => (s, opLogExp true ws)
   | "expf" :: _ => (s, opLogExp false ws)
   | "vec" :: _ => (s, opVec ws)
